@@ -6,6 +6,7 @@ import (
 	"go/types"
 	"os"
 	"path/filepath"
+	"reflect"
 	"regexp"
 	"sort"
 	"strings"
@@ -3981,8 +3982,8 @@ func hrParamSegmentNonEmpty(w *World, r *Report, rule string) {
 		repl = constant.StringVal(c)
 	}
 	re, err := regexp.Compile("^" + repl + "$")
-	needsChar := err == nil && repl != "" && !re.MatchString("/") && !re.MatchString("") && re.MatchString("/x")
-	r.Check(needsChar, rule, "RegexToReplacePathParameters/needs-a-character", token.NoPos, "a path parameter is registered as %q: one segment with at least one character (the URL tree itself follows a parameter node for any segment, so this is the only guard against users//posts being served as users/{id}/posts)", repl)
+	needsChar := err == nil && repl != "" && !re.MatchString("/") && !re.MatchString("") && re.MatchString("/x") && re.MatchString("/john.doe") && re.MatchString("/a%20b") && !re.MatchString("/a/b")
+	r.Check(needsChar, rule, "RegexToReplacePathParameters/needs-a-character", token.NoPos, "a path parameter is registered as %q: exactly one segment of at least one character, whatever the characters (the URL tree itself follows a parameter node for any segment, so this is the only guard against users//posts being served as users/{id}/posts)", repl)
 }
 
 // hrStoredResponseOwnsItsHeaders: a response kept in memory, and each replay of it, has a header map of its
@@ -4045,4 +4046,516 @@ func hrStoredResponseOwnsItsHeaders(w *World, r *Report, rule string) {
 		})
 	}
 	r.Check(n >= 3, rule, "stored-responses/header-maps", token.NoPos, "%d stored or replayed responses inspected", n)
+}
+
+// ---------------------------------------------------------------------------
+// part 11: eleventh wave (C01-C10 only)
+
+// hrNotFoundOnlyWhenAbsent: "not yet seen" matches only a request that has no entry.
+func hrNotFoundOnlyWhenAbsent(w *World, r *Report, rule string) {
+	f := w.Fn(pkgQuota, "concurrentStrategy.checkReqStatusNoLock")
+	nf := w.constOf(pkgQuota, "reqNotFound")
+	if f == nil || nf == nil {
+		r.Undec(rule, "checkReqStatusNoLock", token.NoPos, "function or constant reqNotFound not found")
+		return
+	}
+	n, ok := 0, true
+	Instrs(f, func(in ssa.Instruction) {
+		b, isB := in.(*ssa.BinOp)
+		if !isB || b.Op != token.EQL || !(isConstVal(b.Y, nf) || isConstVal(b.X, nf)) {
+			return
+		}
+		n++
+		absent := false
+		for _, cd := range CondsOf(b.Block()) {
+			if e, isE := peel(cd.V).(*ssa.Extract); isE && e.Index == 1 && !cd.Pol {
+				if _, isLk := e.Tuple.(*ssa.Lookup); isLk {
+					absent = true
+				}
+			}
+		}
+		if !absent {
+			ok = false
+		}
+	})
+	r.Check(ok && n == 1, rule, "checkReqStatusNoLock/not-found-matches-only-an-absent-request", f.Pos(), "the expected status reqNotFound is compared only where the request has no entry (Inc's already-processed guard must fire for a request that has one)")
+}
+
+// hrOnErrorWireFormat: the report of failed transactions is marshalled whole.
+func hrOnErrorWireFormat(w *World, r *Report, rule string) {
+	f := w.Fn(pkgSDisc, "OnError.JSONMarshal")
+	if f == nil {
+		r.Undec(rule, "OnError.JSONMarshal", token.NoPos, "function not found")
+		return
+	}
+	cs := CallsIn(f, false, "json.Marshal")
+	ok := len(cs) == 1
+	if ok {
+		a := cs[0].Common().Args[0]
+		if mi, isMI := a.(*ssa.MakeInterface); isMI {
+			a = mi.X
+		}
+		ok = a == ssa.Value(f.Params[0])
+	}
+	r.Check(ok, rule, "OnError.JSONMarshal/marshals-the-report-itself", f.Pos(), "json.Marshal(o): the engine's handler decodes an OnError object, not one of its fields")
+}
+
+// hrEarlyReturnTypes: which request actions end the request path.
+func hrEarlyReturnTypes(w *World, r *Report, rule string) {
+	want := map[string]bool{"NoOpAction": false, "ModifyRequestAction": false, "ModifyHeadersAction": false, "GenerateRequestAction": true, "EarlyResponseAction": true}
+	for tn, v := range want {
+		f := w.Fn(pkgActions, tn+".IsEarlyReturnType")
+		if f == nil {
+			r.Undec(rule, tn+".IsEarlyReturnType", token.NoPos, "function not found")
+			continue
+		}
+		ok, n := true, 0
+		for _, alt := range ReturnAlts(f, 0) {
+			n++
+			if b, isB := constBool(alt.Val); !isB || b != v {
+				ok = false
+			}
+		}
+		r.Check(ok && n == 1, rule, tn+".IsEarlyReturnType/is-"+map[bool]string{true: "true", false: "false"}[v], f.Pos(), "%s ends the request path: %v (an action that only rewrites the request must not make the engine drop the request's quota slot)", tn, v)
+	}
+}
+
+// hrStatusArgIsInt64: the response status is read with the type the SPOE library decodes integers to.
+func hrStatusArgIsInt64(w *World, r *Report, rule string) {
+	f := w.Fn(pkgRouting, "readResponseArgs")
+	if f == nil {
+		r.Undec(rule, "readResponseArgs", token.NoPos, "function not found")
+		return
+	}
+	n, ok := 0, true
+	Instrs(f, func(in ssa.Instruction) {
+		c, isC := in.(*ssa.Call)
+		if !isC || !isCallTo(c, "routing.extractArg") {
+			return
+		}
+		if s, isS := constString(c.Call.Args[0]); !isS || s != "status" {
+			return
+		}
+		n++
+		callee := c.Call.StaticCallee()
+		if callee == nil || len(callee.TypeArgs()) != 1 || callee.TypeArgs()[0].String() != "int64" {
+			ok = false
+		}
+	})
+	r.Check(ok && n == 1, rule, "readResponseArgs/status-read-as-int64", f.Pos(), "extractArg[int64](\"status\"): HAProxy integers arrive as int64, any other assertion yields status 0 for every response")
+}
+
+// hrInternalLimitFilter: an internal limit's node carries that limit's own filter.
+func hrInternalLimitFilter(w *World, r *Report, rule string) {
+	f := w.Fn(pkgQuota, "quotaResource.init")
+	if f == nil {
+		r.Undec(rule, "quotaResource.init", token.NoPos, "function not found")
+		return
+	}
+	n := 0
+	Instrs(f, func(in ssa.Instruction) {
+		a, isA := in.(*ssa.Alloc)
+		if !isA || structOf(a.Type()) != "NodeConfig" {
+			return
+		}
+		id, fl := singleFieldStoreByName(a, "ID"), singleFieldStoreByName(a, "Filter")
+		if id == nil || fl == nil || !strings.Contains(Path(id), "internalLimit") && !strings.Contains(Path(id), "InternalLimits") {
+			return
+		}
+		n++
+		base := func(p string) string {
+			if i := strings.LastIndex(p, "."); i >= 0 {
+				return p[:i]
+			}
+			return p
+		}
+		r.Check(base(Path(id)) == base(Path(fl)) && strings.HasSuffix(Path(fl), ".Filter"), rule, "quotaResource.init/internal-limit-node-has-its-own-filter", a.Pos(), "NodeConfig{ID: x.ID, Filter: x.Filter} for one and the same internal limit x (ID from %s, Filter from %s)", trunc(Path(id), 50), trunc(Path(fl), 50))
+	})
+	r.Check(n >= 1, rule, "quotaResource.init/internal-limit-nodes", f.Pos(), "%d internal-limit node configurations inspected", n)
+}
+
+// hrScriptRestoresResponse: after a script changed the stored request and the response, the stream is a response again.
+func hrScriptRestoresResponse(w *World, r *Report, rule string) {
+	f := w.Fn("lunar/engine/streams/processors/custom-script", "customScriptProcessor.storeResponseChanges")
+	if f == nil {
+		r.Undec(rule, "storeResponseChanges", token.NoPos, "function not found")
+		return
+	}
+	sets := CallsIn(f, false, "APIStreamI).SetResponse")
+	ok := len(sets) >= 1
+	for _, alt := range ReturnAlts(f, 0) {
+		if !isNilConst(alt.Val) {
+			continue
+		}
+		changed := false // the return after the script's response was written back
+		for _, rel := range relsOfConds(alt.Conds) {
+			if rel.Op == "==" && isNilConst(rel.R) && strings.Contains(Path(rel.L), "json.Unmarshal(") {
+				changed = true
+			}
+		}
+		if !changed {
+			continue
+		}
+		dom := false
+		for _, s := range sets {
+			if domInstr(s, alt.Ret) {
+				dom = true
+			}
+		}
+		if !dom {
+			ok = false
+		}
+	}
+	r.Check(ok, rule, "storeResponseChanges/ends-with-SetResponse", f.Pos(), "the return after the script's response was written back is preceded by apiStream.SetResponse (SetRequest, if it ran, had switched the stream to the request side)")
+}
+
+// hrGenerateResponseHandsOver: the processor that answers a request says so by typing its output as a response.
+func hrGenerateResponseHandsOver(w *World, r *Report, rule string) {
+	f := w.Fn("lunar/engine/streams/processors/generate-response", "generateResponseProcessor.onRequest")
+	want := w.constOf("lunar/engine/streams/public-types", "StreamTypeResponse")
+	if f == nil || want == nil {
+		r.Undec(rule, "generateResponseProcessor.onRequest", token.NoPos, "function or constant not found")
+		return
+	}
+	n, ok := 0, true
+	for _, alt := range ReturnAlts(f, 0) {
+		act := litField(alt.Val, "ReqAction")
+		if act == nil || isNilConst(act) {
+			continue
+		}
+		n++
+		if t := litField(alt.Val, "Type"); t == nil || !isConstVal(t, want) {
+			ok = false
+		}
+	}
+	r.Check(ok && n >= 1, rule, "generateResponseProcessor.onRequest/output-typed-as-response", f.Pos(), "the output that carries the early-response action has Type StreamTypeResponse (that is what makes the walk stop and hand over to the response path)")
+}
+
+// hrConcurrentLocations: the concurrency quota counts at the start of the request and releases at the end of the response.
+func hrConcurrentLocations(w *World, r *Report, rule string) {
+	f := w.Fn(pkgQuota, "concurrentStrategy.getProcessorsLocation")
+	if f == nil {
+		r.Undec(rule, "getProcessorsLocation", token.NoPos, "function not found")
+		return
+	}
+	set := func(v ssa.Value, fld string) bool {
+		x := litField(v, fld)
+		return x != nil && !isNilConst(x) && Derives(x, func(y ssa.Value) bool { _, isC := y.(*ssa.Call); return isC })
+	}
+	n := 0
+	for _, alt := range ReturnAlts(f, 0) {
+		req, resp := litField(alt.Val, "Request"), litField(alt.Val, "Response")
+		if req == nil || resp == nil {
+			continue
+		}
+		n++
+		r.Check(set(req, "Start") && !set(req, "End") && set(resp, "End") && !set(resp, "Start"), rule, "concurrentStrategy.getProcessorsLocation/inc-first-dec-last", posOf(alt.Ret), "Request.Start and Response.End carry a processor, Request.End and Response.Start none (the release runs after the user's response flows)")
+	}
+	r.Check(n >= 1, rule, "concurrentStrategy.getProcessorsLocation/literal", f.Pos(), "%d location literals inspected", n)
+}
+
+// hrNodeValueOnlyWhenPresent: a tree node's value is dereferenced only where the node has one.
+func hrNodeValueOnlyWhenPresent(w *World, r *Report, rule string) {
+	f := w.Fn(pkgURLTree, "lookupFlow")
+	if f == nil {
+		r.Undec(rule, "lookupFlow", token.NoPos, "function not found")
+		return
+	}
+	n := 0
+	Instrs(f, func(in ssa.Instruction) {
+		u, isU := in.(*ssa.UnOp)
+		if !isU || u.Op != token.MUL {
+			return
+		}
+		inner, isIn := u.X.(*ssa.UnOp)
+		if !isIn || inner.Op != token.MUL {
+			return
+		}
+		fa, isFA := inner.X.(*ssa.FieldAddr)
+		if !isFA || fieldName(fa.X.Type(), fa.Field) != "Value" {
+			return
+		}
+		n++
+		node := Path(fa.X)
+		ok := false
+		for _, cd := range expandConds(CondsOf(u.Block())) {
+			c, isC := peel(cd.V).(*ssa.Call)
+			if isC && cd.Pol && isCallTo(c, "Node).hasValue") && Path(c.Call.Args[0]) == node {
+				ok = true
+			}
+		}
+		r.Check(ok, rule, "lookupFlow/value-read-only-of-a-node-that-has-one", posOf(u), "*%s.Value is read under %s.hasValue()", trunc(node, 50), trunc(node, 50))
+	})
+	r.Check(n >= 2, rule, "lookupFlow/value-reads", f.Pos(), "%d reads of a node's value inspected", n)
+}
+
+// hrExpressionGuards: the parsed expression is dereferenced only where it exists.
+func hrExpressionGuards(w *World, r *Report, rule string) {
+	for _, name := range []string{"Filter.GetReqExpressions", "Filter.GetResExpressions"} {
+		f := w.Fn(pkgSCfg, name)
+		if f == nil {
+			r.Undec(rule, name, token.NoPos, "function not found")
+			continue
+		}
+		ok := false
+		for _, alt := range ReturnAlts(f, 0) {
+			if !isNilConst(alt.Val) {
+				continue
+			}
+			for _, rel := range relsOfConds(alt.Conds) {
+				if rel.Op == "==" && isNilConst(rel.R) && strings.HasSuffix(Path(rel.L), ".expression") {
+					ok = true
+				}
+			}
+		}
+		r.Check(ok, rule, name+"/nil-when-the-parsed-expression-is-absent", f.Pos(), "returns nil exactly when f.expression (the parsed form that is dereferenced below) is nil")
+	}
+}
+
+// hrWatcherAlwaysStarts: every queue has its time-to-live watcher.
+func hrWatcherAlwaysStarts(w *World, r *Report, rule string) {
+	f := w.Fn(pkgQProc, "NewRequestsWatcher")
+	if f == nil {
+		r.Undec(rule, "NewRequestsWatcher", token.NoPos, "function not found")
+		return
+	}
+	n, ok := 0, true
+	Instrs(f, func(in ssa.Instruction) {
+		if g, isG := in.(*ssa.Go); isG && strings.Contains(calleeID(g), "manageTTLs") {
+			n++
+			if !alwaysRuns(g) {
+				ok = false
+			}
+		}
+	})
+	r.Check(ok && n == 1, rule, "NewRequestsWatcher/ttl-watcher-started-for-every-queue", f.Pos(), "go manageTTLs() runs for every watcher (a queue whose waiters are never timed out gives a refused request no verdict)")
+}
+
+// hrResponseActionAvailable: a response action is available when there is one.
+func hrResponseActionAvailable(w *World, r *Report, rule string) {
+	f := w.Fn(pkgStreamTypes, "ProcessorIO.IsResponseActionAvailable")
+	if f == nil {
+		r.Undec(rule, "IsResponseActionAvailable", token.NoPos, "function not found")
+		return
+	}
+	rows := decisionOf(f, 0)
+	ok := len(rows) >= 2
+	for _, c := range rows {
+		if len(c.lits) != 1 {
+			ok = false
+		}
+		for a := range c.lits {
+			if !strings.Contains(a, ".RespAction") || !strings.HasSuffix(a, "== nil)") {
+				ok = false
+			}
+		}
+	}
+	r.Check(ok, rule, "IsResponseActionAvailable/decided-by-the-action-alone", f.Pos(), "true exactly when RespAction is not nil, whatever the output's type (the Retry processor returns its action typed as a request)")
+}
+
+// hrSetResponseSwitchesBothTypes: a stream given its response is a response for selection and for execution.
+func hrSetResponseSwitchesBothTypes(w *World, r *Report, rule string) {
+	want := w.constOf("lunar/engine/streams/public-types", "StreamTypeResponse")
+	f := w.Fn(pkgStreamTypes, "APIStream.SetResponse")
+	if f == nil || want == nil {
+		r.Undec(rule, "APIStream.SetResponse", token.NoPos, "function or constant not found")
+		return
+	}
+	for _, fld := range []string{"actionType", "streamType"} {
+		st := fieldStores(f, fld)
+		ok := len(st) == 1 && isConstVal(st[0].Val, want) && alwaysRuns(st[0])
+		r.Check(ok, rule, "APIStream.SetResponse/"+fld+"-becomes-response", f.Pos(), "SetResponse sets %s to StreamTypeResponse, always", fld)
+	}
+}
+
+// hrMetricsPathIsTheConfiguredFile: the user's metrics file is used whenever it exists.
+func hrMetricsPathIsTheConfiguredFile(w *World, r *Report, rule string) {
+	f := w.Fn("lunar/engine/utils/environment", "GetMetricsConfigFilePath")
+	if f == nil {
+		r.Undec(rule, "GetMetricsConfigFilePath", token.NoPos, "function not found")
+		return
+	}
+	n, ok := 0, true
+	var extra []string
+	for _, alt := range ReturnAlts(f, 0) {
+		if !strings.Contains(Path(alt.Val), "os.Getenv(") {
+			continue
+		}
+		n++
+		for _, cd := range alt.Conds {
+			rel, isRel := NormCond(cd)
+			if isRel && rel.Op == "==" && isNilConst(rel.R) && strings.Contains(Path(rel.L), "os.Stat(") {
+				continue
+			}
+			ok = false
+			extra = append(extra, trunc(condsString([]Cond{cd}), 70))
+		}
+	}
+	r.Check(ok && n == 1, rule, "GetMetricsConfigFilePath/existing-user-file-wins", f.Pos(), "the configured path is returned whenever os.Stat succeeds, under no further condition (%v): backup and save must agree on the file", extra)
+}
+
+// hrKnownEndpointsAlwaysWritten: the generated known-endpoints file is rewritten on every load.
+func hrKnownEndpointsAlwaysWritten(w *World, r *Report, rule string) {
+	f := w.Fn("lunar/engine/streams/resources/path_params", "PathParams.writePathParams")
+	if f == nil {
+		r.Undec(rule, "writePathParams", token.NoPos, "function not found")
+		return
+	}
+	ok := true
+	var extra []string
+	for _, alt := range ReturnAlts(f, 0) {
+		if !isNilConst(alt.Val) {
+			continue
+		}
+		// a nil return that is not the result of the write itself
+		ok = false
+		extra = append(extra, condsString(alt.Conds))
+	}
+	cs := CallsIn(f, false, "path_params.createYAMLFile", "pathparams.createYAMLFile", "createYAMLFile")
+	r.Check(ok && len(cs) == 1, rule, "writePathParams/file-rewritten-for-every-configuration", f.Pos(), "the only successful way out is the write itself, also for an empty list (a restored configuration without URLs must replace the rejected payload's file) (other nil returns: %v)", extra)
+}
+
+// hrCfgEngineHeadersKept (haproxy.cfg): headers the engine reads are still there when the SPOE message is built.
+func hrCfgEngineHeadersKept(w *World, r *Report, rule string) {
+	cfg, err := loadHAProxyCfg(w.Repo)
+	if err != nil {
+		r.Undec(rule, "haproxy.cfg", token.NoPos, "cannot read %s: %v", haproxyCfgPath, err)
+		return
+	}
+	fe := cfg.section("frontend", "http-in")
+	if fe == nil {
+		r.Undec(rule, "haproxy.cfg/frontend/http-in", token.NoPos, "frontend http-in not found")
+		return
+	}
+	firstSend := 1 << 30
+	for _, d := range fe.find("http-request", "send-spoe-group") {
+		if d.Line < firstSend {
+			firstSend = d.Line
+		}
+	}
+	var bad []string
+	n := 0
+	for _, d := range fe.find("http-request", "del-header") {
+		if d.Line > firstSend || len(d.Words) < 3 {
+			continue
+		}
+		n++
+		h := strings.ToLower(d.Words[2])
+		// transport details of the interceptor; everything else the remedies may group or filter by
+		if h != "x-lunar-scheme" && h != "x-lunar-interceptor" && h != "x-lunar-host" {
+			bad = append(bad, h)
+		}
+	}
+	cfgCheck(r, len(bad) == 0, rule, "haproxy.cfg/http-in/no-engine-visible-header-deleted-before-the-spoe-message", cfg, fe.Line, "before the request SPOE groups only the interceptor's transport headers are deleted (%d del-header rules; others: %v): x-lunar-consumer-tag and the like are read by the remedies", n, bad)
+}
+
+// hrCfgAgentTimeout (haproxy.cfg): the SPOE backend waits as long as the engine may take.
+func hrCfgAgentTimeout(w *World, r *Report, rule string) {
+	cfg, err := loadHAProxyCfg(w.Repo)
+	if err != nil {
+		r.Undec(rule, "haproxy.cfg", token.NoPos, "cannot read %s: %v", haproxyCfgPath, err)
+		return
+	}
+	name := "lunar"
+	if c := w.constOf(pkgFailsafe, "spoeBackendProxyName"); c != nil {
+		name = constant.StringVal(c)
+	}
+	be := cfg.section("backend", name)
+	if be == nil {
+		r.Undec(rule, "haproxy.cfg/backend/"+name, token.NoPos, "backend not found")
+		return
+	}
+	ds := be.find("timeout", "server")
+	envName := ""
+	if c := w.constOf("lunar/engine/utils/environment", "spoeProcessingTimeoutSecEnvVar"); c != nil {
+		envName = constant.StringVal(c)
+	}
+	ok := len(ds) == 1 && len(ds[0].Words) == 3 && envName != "" && strings.Contains(ds[0].Words[2], "${"+envName+"}")
+	cfgCheck(r, ok, rule, "haproxy.cfg/backend/"+name+"/timeout-server-is-the-processing-timeout", cfg, be.Line, "timeout server expands ${%s}, the value queue TTLs are validated against", envName)
+}
+
+// hrQueueTTLAtLeastOneSecond: the queue remedy's TTL is validated to be a whole second at least.
+func hrQueueTTLAtLeastOneSecond(w *World, r *Report, rule string) {
+	named := w.Named("lunar/shared-model/config", "StrategyBasedQueueConfig")
+	if named == nil {
+		r.Undec(rule, "StrategyBasedQueueConfig", token.NoPos, "type not found")
+		return
+	}
+	st, _ := named.Underlying().(*types.Struct)
+	ok := false
+	tag := ""
+	for i := 0; st != nil && i < st.NumFields(); i++ {
+		if st.Field(i).Name() == "TTLSeconds" {
+			tag = reflect.StructTag(st.Tag(i)).Get("validate")
+			for _, part := range strings.Split(tag, ",") {
+				if part == "gte=1" || part == "min=1" {
+					ok = true
+				}
+			}
+		}
+	}
+	r.Check(ok, rule, "StrategyBasedQueueConfig.TTLSeconds/validated-gte-1", named.Obj().Pos(), "validate tag %q demands ttl_seconds >= 1 (OnRequest truncates the value to whole seconds: 0.5 would be a TTL of 0)", tag)
+}
+
+// hrEveryMatchingEdgeFollowed: the walk follows every edge whose condition matches, not only the first.
+func hrEveryMatchingEdgeFollowed(w *World, r *Report, rule string) {
+	f := w.Fn(pkgStream, "Stream.ExecuteFlow")
+	if f == nil {
+		r.Undec(rule, "stream.ExecuteFlow", token.NoPos, "function not found")
+		return
+	}
+	var loop *ssa.BasicBlock
+	for _, c := range CallsIn(f, false, "stream.Stream).ExecuteFlow") {
+		for _, h := range loopHeadersOf(f) {
+			if loopHas(h, c.Block()) {
+				loop = h
+			}
+		}
+	}
+	if loop == nil {
+		r.Undec(rule, "stream.ExecuteFlow/edge-loop", f.Pos(), "the recursive call is not inside a loop over the edges")
+		return
+	}
+	ok := len(loopBreaks(loop)) == 0
+	var bad []string
+	for _, b := range f.Blocks {
+		if b == loop || !loopHas(loop, b) || len(b.Instrs) == 0 {
+			continue
+		}
+		ret, isRet := b.Instrs[len(b.Instrs)-1].(*ssa.Return)
+		if !isRet {
+			continue
+		}
+		failed := false
+		for _, rel := range Rels(b) {
+			if rel.Op == "!=" && isNilConst(rel.R) && isErrorType(rel.L.Type()) {
+				failed = true
+			}
+		}
+		if !failed {
+			ok = false
+			bad = append(bad, w.Pos(ret.Pos()))
+		}
+	}
+	r.Check(ok, rule, "stream.ExecuteFlow/every-matching-edge-followed", f.Pos(), "the loop over a node's edges is left early only with an error (returns without one: %v): a processor with two matching connections runs both branches", bad)
+}
+
+// hrCounterParsedAsDecimal: a counter value taken from a header or body is a decimal number.
+func hrCounterParsedAsDecimal(w *World, r *Report, rule string) {
+	f := w.Fn(pkgQuota, "buildExtractCountFromCounterValuePath")
+	if f == nil {
+		r.Undec(rule, "buildExtractCountFromCounterValuePath", token.NoPos, "function not found")
+		return
+	}
+	n, ok := 0, true
+	for _, af := range Anons(f) {
+		for _, c := range CallsIn(af, false, "strconv.ParseInt") {
+			n++
+			if !isIntConst(c.Common().Args[1], 10) {
+				ok = false
+			}
+		}
+		n += len(CallsIn(af, false, "strconv.Atoi"))
+	}
+	r.Check(ok && n >= 1, rule, "buildExtractCountFromCounterValuePath/decimal", f.Pos(), "the counter value is parsed in base 10 (base 0 reads \"010\" as 8 and \"0x10\" as 16)")
 }
